@@ -20,7 +20,7 @@ META = {
                    "operands are not written (one named exception: the final rescale of amen_divide's own cores). Does NOT decide the accuracy "
                    "of the quotient (inherits the convergence behaviour of AMEn).",
     "assumptions": ["real operands", "generic sizes: rank families at different positions / of different trains are independent"],
-    "floors": {"ENRICH-WIDTH": 1, "ZERO-NORM": 6, "ROUTING": 3, "E5-CHAIN": 12, "IFACE-TYPE": 40, "DEF-ATTR": 10},
+    "floors": {"ENRICH-WIDTH": 1, "ZERO-NORM": 6, "ROUTING": 3, "E5-CHAIN": 12, "IFACE-TYPE": 28, "DEF-ATTR": 6},
 }
 ANCHORS = ["_division.amen_divide", "_division.local_product", "_division.LinearOp.matvec", "_division.LinearOp.apply_prec", "_division.compute_phi_fwd_A",
            "_division.compute_phi_bck_A", "_division.compute_phi_fwd_rhs", "_division.compute_phi_bck_rhs", "_tt_base.TT.__truediv__",
